@@ -243,6 +243,17 @@ def _model_one(c):
     eqg, stg = build(g.fields(fields))
     recg = run(eqg, stg)
     ncmp += _compare_nodes(np, grid, g, recx, recg, nodes, bad, f'equivariance:{cls}')
+    if c['oro'] and (k, mir) == elements[1]:
+      # the transformed problem posed by re-assigning the orography of the object that was already evaluated
+      # (the equation classes are mutable dataclasses) must be the same problem as a freshly built one
+      import copy
+      eqm = copy.copy(eq)
+      eqm.orography = eqg.orography
+      a_, b_ = np.asarray(eqm.explicit_terms(stg).divergence), np.asarray(eqg.explicit_terms(stg).divergence)
+      if not np.array_equal(a_, b_):
+        bad(f'equivariance:{cls}:node:explicit.divergence:reassigned_orography',
+            f'rotated problem (k={k}): an equation object whose orography was re-assigned after an evaluation gives a divergence '
+            f'tendency that differs from a freshly built object by {np.abs(a_ - b_).max():.3e}')
   # trajectories: every integrator x filter stack, 3 steps
   stacks = [('imex_rk_sil3', []), ('crank_nicolson_rk2', ['exp']), ('crank_nicolson_rk3', ['diff']),
             ('backward_forward_euler', ['exp', 'diff']), ('crank_nicolson_rk4', [])]
